@@ -397,6 +397,7 @@ INTR = {}
 def translate_func(name, rt, args, names, va, body):
     cname = cid(name)
     CURFN[0] = cname; STRSETS.clear()
+    LASTPARAM[0] = ('v_' + cid(names[-1])) if names else None
     types = {}      # %name -> T
     for a, n in zip(args, names): types[n] = a
     def loc(n): return 'v_' + cid(n)
@@ -718,6 +719,8 @@ UBSAN_KINDS = {0: 'add_overflow', 1: 'builtin_unreachable', 3: 'divrem_overflow'
   8: 'invalid_builtin', 10: 'load_invalid_value', 11: 'missing_return', 12: 'mul_overflow', 13: 'negate_overflow', 16: 'nonnull_arg', 17: 'nonnull_return',
   18: 'out_of_bounds', 19: 'pointer_overflow', 20: 'shift_out_of_bounds', 21: 'sub_overflow', 22: 'type_mismatch', 23: 'alignment_assumption', 24: 'vla_bound_not_positive'}
 CURFN = ['']
+LASTPARAM = [None]
+SYMLEN_MEM = []
 DEFINED_FUNCS = set()
 STRSETS = {}
 def str_of(e):
@@ -740,6 +743,10 @@ def call_expr(callee, rt, fty, cargs, atypes, loc, c):
         if n.startswith('llvm.'):
             if n.startswith('llvm.lifetime') or n.startswith('llvm.experimental.noalias') or n.startswith('llvm.dbg') or n.startswith('llvm.prefetch'): return None
             if n.startswith('llvm.assume'): return 'VERIF_LLVM_ASSUME(%s)' % cargs[0]
+            if n.startswith('llvm.mem'):
+                # CBMC's built-in models are exact for a symbolic length only when the destination is a byte array (or malloc'ed
+                # memory); such call sites are listed in the report (-> evidence) so that a reviewer can see which units rely on it
+                if not re.match(r'^\(\(uint64_t\)0x[0-9a-f]+ULL\)$', cargs[2]): SYMLEN_MEM.append(CURFN[0])
             if n.startswith('llvm.memcpy'): return 'memcpy(%s, %s, %s)' % (cargs[0], cargs[1], cargs[2])
             if n.startswith('llvm.memmove'): return 'memmove(%s, %s, %s)' % (cargs[0], cargs[1], cargs[2])
             if n.startswith('llvm.memset'): return 'memset(%s, %s, %s)' % (cargs[0], cargs[1], cargs[2])
@@ -754,6 +761,11 @@ def call_expr(callee, rt, fty, cargs, atypes, loc, c):
                 m = re.search(r'0x([0-9a-f]+)', cargs[0]); k = int(m.group(1), 16) if m else -1
                 return 'VERIF_TRAP("ubsan:%s in %s")' % (UBSAN_KINDS.get(k, str(k)), CURFN[0][:80])
             if n == 'llvm.trap': return 'VERIF_TRAP("llvm.trap in %s")' % CURFN[0][:80]
+            # varargs: the only consumer of a va_list in asmjit is vsnprintf, reached from the variadic function through a
+            # pointer to the list. The list is kept in one global (VERIF_VA_CUR, see verif_prelude.h / tools/verif_printf.c);
+            # va_copy/va_end on LLVM's own list object are no-ops and vsnprintf is routed to verif_vsnprintf.
+            if n.startswith('llvm.va_start') and LASTPARAM[0]: return 'va_start(VERIF_VA_CUR, %s)' % LASTPARAM[0]
+            if n.startswith('llvm.va_end') or n.startswith('llvm.va_copy'): return None
             if n.startswith('llvm.va_') : return '__CPROVER_assert(0, "va")'
             if n.startswith('llvm.x86.rdtsc'): return 'nondet_u64()'
             if n.startswith('llvm.fmuladd'): return '(%s * %s + %s)' % (cargs[0], cargs[1], cargs[2])
@@ -776,6 +788,8 @@ def call_expr(callee, rt, fty, cargs, atypes, loc, c):
             return 'VERIF_ASMJIT_ASSERT("ASMJIT_ASSERT(%s) at %s:%d")' % (txt[:100], fil, line)
         args = ', '.join(cargs)
         if f == 'bcmp': f = 'memcmp'
+        if f == 'vsnprintf': return 'verif_vsnprintf(%s)' % ', '.join(cargs[:3])
+        if f == 'snprintf': f = 'verif_snprintf'
         # fault injection at the libc level: when the harness defines verif_malloc / verif_realloc / verif_free, every other
         # function's call to the libc function is routed through it (natively the same is done with ld --wrap)
         if f in ('malloc', 'realloc', 'free', 'calloc') and ('verif_' + f) in DEFINED_FUNCS and not CURFN[0].startswith('verif_'): f = 'verif_' + f
@@ -973,6 +987,6 @@ if ARGS.report:
     import json
     json.dump({'defined': [f[0][1:].strip('"') for f in funcs if f[5] is not None and not (cid(f[0]) in nobody or f[0][1:].strip('"') in nobody)],
                'declared': [f[0][1:].strip('"') for f in funcs if f[5] is None],
-               'errors': [[a, b] for a, b in errors], 'reshaped_globals': reshaped}, open(ARGS.report, 'w'))
+               'errors': [[a, b] for a, b in errors], 'reshaped_globals': reshaped, 'symbolic_length_mem_calls': sorted(set(SYMLEN_MEM))}, open(ARGS.report, 'w'))
 for e in errors: print('ERR', e, file=sys.stderr)
 print('functions: %d translated, %d errors' % (sum(1 for f in funcs if f[5] is not None), len(errors)), file=sys.stderr)
